@@ -12,7 +12,7 @@ import (
 func init() {
 	register(&Check{
 		ID: "C06", Level: "exploration", QuickSecs: 150, ThoroughSecs: 1200,
-		Rule:        "(F1) all block-free bodies over {'a','b',\"ab\",\"\",[ab],[^a],.} x {?,*,+,&,!} x seq/choice up to N nodes (quick 4, thorough 5); (F2) every single label+action decoration for N<=3; (F3) forced revisits: a rule R (every body up to 4 nodes, every single label placement, with a rule-level action, an always-failing action error, or a label-dependent predicate; for bodies up to 3 (4) nodes also INLINE: the block parenthesised behind the variable-width prefix \"a\"* - thorough also [ab]? - so that the rule starts at two offsets but the block at one) reached at one offset along two paths by the templates {R 'b' / R, &R R, R 'b' / . r:R {act}, R / . R, (R 'b' / R)*}. (F4) left-recursive grammars generated with -support-left-recursion (direct, two-level tower, indirect pairs with both name orders entered through either rule). Inputs over {a,b} up to L=3 (4). All 8 combinations of Memoize, Debug, Statistics: success/failure, value and code-block errors must equal the default-option run (which itself is compared with the reference); with Memoize every (block, start offset) is invoked at most once and Stats.ExprCnt <= (#expressions of the emitted grammar) x (len+1). Non-trivial = under Memoize at least one memo hit changed the number of block invocations or evaluated expressions.",
+		Rule:        "(F1) all block-free bodies over {'a','b',\"ab\",\"\",[ab],[^a],.} x {?,*,+,&,!} x seq/choice up to N nodes (quick 4, thorough 5); (F2) every single label+action decoration for N<=3; (F3) forced revisits: a rule R (every body up to 4 nodes, every single label placement, with a rule-level action, an always-failing action error, or a label-dependent predicate; for bodies up to 3 (4) nodes also INLINE: the block parenthesised behind the variable-width prefix \"a\"* - thorough also [ab]? - so that the rule starts at two offsets but the block at one) reached at one offset along two paths by the templates {R 'b' / R, &R R, R 'b' / . r:R {act}, R / . R, (R 'b' / R)*}. (F4) left-recursive grammars generated with -support-left-recursion (direct, two-level tower, indirect pairs with both name orders entered through either rule, a non-recursive rule with an action called inside a discarded growth attempt and again afterwards; each also with every action returning an error). Inputs over {a,b} up to L=3 (4). All 8 combinations of Memoize, Debug, Statistics: success/failure, value and code-block errors must equal the default-option run (which itself is compared with the reference); with Memoize every (block, start offset) is invoked at most once, a census hook at the entry of parseExpr shows that no (expression node, offset) pair is evaluated twice (labeled expressions excepted) and Stats.ExprCnt <= (#expressions of the emitted grammar) x (len+1). Non-trivial = under Memoize at least one memo hit changed the number of block invocations or evaluated expressions.",
 		Assumptions: []string{"E1 loader", "blocks are pure functions of text, pos and their labels by construction"},
 		Run:         runC06,
 	})
@@ -132,6 +132,11 @@ func runC06(c *ShardCtx) {
 						// exactly the packrat table keyed by (node, offset): a code block
 						// whose result depends on labels bound before its start offset
 						known = "memo-label-dependent"
+						if b.Flags.LeftRecursion {
+							// the same table in a parser with left-recursion support: what it ignores
+							// there is the roll-back of the error list after a discarded growth attempt
+							known = "memo-lr-rollback"
+						}
 					}
 				}
 				var cc *ConfCase
@@ -164,6 +169,16 @@ func runC06(c *ShardCtx) {
 				)
 			}
 		}
+		// a non-recursive rule with an action called inside a growth attempt that is discarded AND
+		// again afterwards at the same offset
+		for _, t := range []string{"a", "b"} {
+			lrs = append(lrs,
+				&peg.Grammar{Rules: []*peg.Rule{{Name: "S", Expr: peg.Action(0, peg.Seq(peg.Label("v", peg.Ref("E")), peg.Label("w", peg.Opt(peg.Seq(lit("b"), peg.Ref("T"))))))},
+					{Name: "E", Expr: peg.Choice(peg.Seq(peg.Ref("E"), lit("b"), peg.Ref("T"), lit(t)), peg.Ref("T"))}, {Name: "T", Expr: peg.Action(0, peg.Cls(false, false, "a", "b"))}}},
+				&peg.Grammar{Rules: []*peg.Rule{{Name: "S", Expr: peg.Seq(peg.Ref("E"), peg.Star(peg.Ref("T")))},
+					{Name: "E", Expr: peg.Choice(peg.Action(0, peg.Seq(peg.Ref("E"), peg.Ref("T"), lit(t))), peg.Ref("T"))}, {Name: "T", Expr: peg.Action(0, peg.Cls(false, false, "a", "b"))}}},
+			)
+		}
 		savedInputs := inputs
 		inputs = peg.Inputs([]string{"a", "b"}, 5) // two growth rounds through the non-leader need 5 bytes
 		for _, g := range lrs {
@@ -177,6 +192,14 @@ func runC06(c *ShardCtx) {
 				leaders = map[string]bool{"A": true}
 			}
 			run(g, nil)
+			// the same with every action returning an error (errors of abandoned growth attempts)
+			if len(g.Blocks()) > 0 {
+				es := map[int]*rtapi.Block{}
+				for _, blk := range g.Blocks() {
+					es[blk.ID] = &rtapi.Block{Err: "e" + itoa(blk.ID)}
+				}
+				run(g, es)
+			}
 		}
 		inputs = savedInputs
 	}
